@@ -79,11 +79,11 @@ pub open spec fn mbp_of<'s>(m: Map<&'s str, ClassMembers<'s>>, k: &'s str) -> Ma
 pub proof fn lemma_method_arm_abs<'s>(c0: ClassMapping<'s>, c1: ClassMapping<'s>, m1: ClassMembers<'s>, v1: Vec<MemberMapping<'s>>,
         obf: &'s str, args: &'s str, e: MemberMapping<'s>, fresh: bool)
     requires
-        c1.original == c0.original, c1.obfuscated == c0.obfuscated, c1.file_name == c0.file_name,
-        c1.members@ == c0.members@.insert(obf, m1),
-        m1.all_mappings@ == seq_of(c0.members@, obf).push(e),
-        fresh ==> m1.mappings_by_params@ == mbp_of(c0.members@, obf).insert(args, v1) && v1@ == bp_of(c0.members@, obf, args).push(e),
-        !fresh ==> m1.mappings_by_params@ == mbp_of(c0.members@, obf),
+        /*@L:class_header_and_other_methods_untouched:C01,C02,C03*/ c1.original == c0.original && c1.obfuscated == c0.obfuscated && c1.file_name == c0.file_name,
+        /*@L:class_header_and_other_methods_untouched:C01,C02,C03*/ c1.members@ == c0.members@.insert(obf, m1),
+        /*@L:every_method_record_is_stored_in_file_order:C01,C02*/ m1.all_mappings@ == seq_of(c0.members@, obf).push(e),
+        /*@L:by_params_gets_non_inlined_first_occurrences_only:C03,C02*/ fresh ==> m1.mappings_by_params@ == mbp_of(c0.members@, obf).insert(args, v1) && v1@ == bp_of(c0.members@, obf, args).push(e),
+        /*@L:by_params_gets_non_inlined_first_occurrences_only:C03,C02*/ !fresh ==> m1.mappings_by_params@ == mbp_of(c0.members@, obf),
     ensures
         abs_class(c1) == (AClass { members: abs_class(c0).members.insert(obf, AMembers { all: members_of(abs_class(c0), obf).all.push(e),
              by: if fresh { members_of(abs_class(c0), obf).by.insert(args, by_of(members_of(abs_class(c0), obf), args).push(e)) } else { members_of(abs_class(c0), obf).by } }), ..abs_class(c0) }),
@@ -215,7 +215,7 @@ pub open spec fn is_inlined_callee(lm: Option<LineMapping>, next: Option<&Progua
             == (if initialize_param_mapping && !is_inlined_callee(line_mapping, next) { old(unique_methods)@.insert((obfuscated, arguments, original)) } else { old(unique_methods)@ }),
         /*@L:other_methods_and_class_header_untouched:C01,C03*/ final(class).original == old(class).original && final(class).obfuscated == old(class).obfuscated
             && final(class).file_name == old(class).file_name && final(class).members@.remove(obfuscated) == old(class).members@.remove(obfuscated),
-        /*@L:method_record_is_one_step_of_the_abstract_builder:C01,C02,C03*/ abs_class(*final(class))
+        /*@L:method_record_is_one_step_of_the_abstract_builder:C02,C03*/ abs_class(*final(class))
             == method_step(abs_class(*old(class)), old(unique_methods)@, initialize_param_mapping, line_mapping, obfuscated, original, original_class, arguments, next),
 {
 """, suffix="\n        " + ABSP + "\n}\n")
